@@ -299,7 +299,7 @@ func TestC03(t *testing.T) {
 		"ordering comparisons of bool/complex/string operands have no ONNX meaning: only no-panic is asserted there")
 	defer reportKnownFindings("C03")
 
-	check(t, "ops", 40000, 150000, func(rt *rapid.T) {
+	check(t, "ops", 40000, 500000, func(rt *rapid.T) {
 		c := c03Gen(rt)
 		node := mkNode(c.op, []string{"a", "b"}, []string{"y"})
 		sa, sb := snap(c.a), snap(c.b)
